@@ -749,7 +749,7 @@ def explore(ctx: runner.Ctx):
             check_case(ctx, case)
         ctx.mark_exhaustive("per generated (class, provider, options): every member, every OR-combination of "
                             "flag members (2^n, n<=9 named members) and the full candidate set are enumerated")
-    n = ctx.budget(8000, 200000)
+    n = ctx.budget(20000, 400000)
     ctx.given(st_case(), lambda case: check_case(ctx, case), int(n * 0.9))
     ctx.given(st_shared_case(), lambda case: check_case(ctx, case), max(1, int(n * 0.1)), seed_offset=1)
 
